@@ -323,6 +323,11 @@ def _trivial(ck):
         return _TRIVIAL[ck]
     if ck.startswith("truthy(") and ck[7:-1].lstrip("-").isdigit():
         return int(ck[7:-1]) != 0
+    import re as _re
+    m_ = _re.fullmatch(r"(-?\d+) (>=|<=|==|!=|>|<) 0", ck)
+    if m_:
+        v_ = int(m_.group(1))
+        return {">": v_ > 0, "<": v_ < 0, ">=": v_ >= 0, "<=": v_ <= 0, "==": v_ == 0, "!=": v_ != 0}[m_.group(2)]
     if ck.startswith("Is(") and ck.endswith(",None)"):
         x = ck[3:-len(",None)")]
         # a tuple / list / dict display, a string or a number is never None
